@@ -25,6 +25,29 @@ reg(
     "DESIGN.md 4.3 C10",
 )
 
+reg(
+    "C01",
+    "Every program of a bounded grammar (full-field setup+launch+await, opaque calls, scf.for with run-time bounds and induction-derived values, "
+    "scf.if on arguments and on induction parity, nesting <= 2/3, one and two accelerators; <= 4/5 statement nodes) is pushed through the real "
+    "accfg-trace-states and accfg-dedup (hoist on and off); input and output IR are executed on an accelerator register machine for every vector "
+    "of loop bounds (trip counts 0,1,2,3; lb != 0; step != 1) and branch outcomes, and the launch/await/call traces with full register snapshots "
+    "must be identical. Exhaustive within the bound; reaches alternating-configuration loop bodies, zero-trip loops and calls nested in control flow.",
+    "Trusted: machines/ir.py (scf/arith semantics), machines/accm.py (register machine: a launch observes the whole file, an unannotated call havocs). "
+    "Programs beyond the node/nesting bound and accelerators with launch parameters are not covered here (C04 covers launch values).",
+    "bounded-exhaustive program enumeration x exhaustive run-time input enumeration, trace equality on an abstract machine (explicit-state)",
+    "DESIGN.md 4.1 C01",
+)
+reg(
+    "C07",
+    "Same program space extended with annotated / llvm calls, scf.while wrappers and re-traced (already threaded) variants. While the traced IR "
+    "executes on the register machine for every input vector, the real infer_state_of() is called at every definition of a state-typed SSA value "
+    "(setup results, loop block arguments on each iteration, loop and if results) and two invariants are evaluated in that machine state: every "
+    "assumed field value equals the register, and every setup is threaded to the state that really precedes it on the executed path.",
+    "Trusted: machines/ir.py, machines/accm.py. Invariants compare run-time values of SSA atoms chosen pairwise distinct.",
+    "explicit-state exploration of program x input space with a state invariant evaluated at every state-defining step, calling the real inference",
+    "DESIGN.md 4.1 C07",
+)
+
 NOT_APPLICABLE = []
 
 ALL = [f"C{i:02d}" for i in range(1, 21)]
